@@ -50,6 +50,7 @@ def body(case, env):
     tr = [(op, off, dat) for op, off, dat in vrun.parse_trace(log) if op in 'WS']
     writes = [i for i, (op, off, dat) in enumerate(tr) if op == 'W']
     # ---- trace invariants
+    replayed = set(expected)      # blocks the model says are written by the replay (a logged block that is revoked is not)
     late_replay = []; cur = bytearray(open(img, 'rb').read()); last_replay = -1; fsync_after_replay = -1; jreset = -1; nrclear = -1
     for i, (op, off, dat) in enumerate(tr):
         if op == 'S':
@@ -58,14 +59,14 @@ def body(case, env):
         if off + len(dat) > len(cur): cur.extend(bytes(off + len(dat) - len(cur)))
         cur[off:off + len(dat)] = dat
         first = off // bs; nb = (len(dat) + bs - 1) // bs
-        if any((first + k) in touched for k in range(nb)):
+        if any((first + k) in replayed for k in range(nb)):
             if jreset < 0: last_replay = i
             else: late_replay.append(i)
         if jreset < 0 and struct.unpack_from('>I', cur, jsb_off + 0x1c)[0] == 0: jreset = i
         if nrclear < 0 and not (struct.unpack_from('<I', cur, 1024 + 0x60)[0] & 4): nrclear = i
     prob = []
     if late_replay: prob.append('replayed block(s) written (write #%s) only after the journal superblock was marked empty (write #%d)' % (late_replay[:3], jreset))
-    elif touched and last_replay < 0: prob.append('no write to any replayed block seen in the trace')
+    elif replayed and last_replay < 0: prob.append('no write to any replayed block seen in the trace')
     if jreset >= 0 and last_replay >= 0 and not (last_replay < fsync_after_replay < jreset): prob.append('journal marked empty (write #%d) without an fsync after the last replayed-block write (#%d; first fsync after it: #%d)' % (jreset, last_replay, fsync_after_replay))
     if nrclear >= 0 and jreset >= 0 and nrclear < jreset and last_replay >= 0 and nrclear < last_replay: prob.append('needs_recovery cleared (write #%d) before the last replayed block was written (#%d)' % (nrclear, last_replay))
     if nrclear >= 0 and last_replay >= 0 and not any(tr[i][0] == 'S' for i in range(last_replay, nrclear)): prob.append('needs_recovery cleared (write #%d) with no fsync since the last replayed-block write (#%d)' % (nrclear, last_replay))
@@ -83,7 +84,7 @@ def body(case, env):
             for m in range(1, 1 << len(pending)): states.append((k, tuple(p for j, p in enumerate(pending) if m >> j & 1)))
         else: states.append((k, tuple(sorted(rnd.sample(pending, rnd.randrange(1, len(pending)))))))
     states = sorted(set(states)); nontrivial_states = 0; torn = []
-    window_lo = min([i for i in writes if any((tr[i][1] // bs + kk) in touched for kk in range((len(tr[i][2]) + bs - 1) // bs))] or [0])
+    window_lo = min([i for i in writes if any((tr[i][1] // bs + kk) in replayed for kk in range((len(tr[i][2]) + bs - 1) // bs))] or [0])
     cw = os.path.join(d, 'c04crash.img')
     for k, dropped in states:
         shutil.copyfile(img, cw)
